@@ -21,39 +21,52 @@ def _env():
     class Lib(ProjectRepo):
         pass
 
+    class LibV(ProjectRepo):
+        """component built from master: its build tags do not carry major.minor, the VERSION file does"""
+        _SAVED_BUILD_NUM_SOURCES = ['VERSION']
+
+        def _read_saved_build_num_from_file(self, blob, path):
+            from ak.ghist import BuildNumData
+            major, minor = [int(x) for x in blob.data_stream.read().decode().strip().split('.')]
+            return BuildNumData(major, minor, None)
+
     class App(ProjectRepo):
         _COMPONENTS_VERSIONS_LOCATIONS = {'lib': 'DEPENDS'}
 
         def read_components_from_file(self, v_file_path, blob):
             d = json.load(blob.data_stream)
             return {k: [int(x) for x in v.split('.')] for k, v in d.items()}
-    _ENV.update(Lib=Lib, App=App, ReposCollection=ReposCollection, RBuild=RBuild, ProjectRepo=ProjectRepo)
+    _ENV.update(Lib=Lib, LibV=LibV, App=App, ReposCollection=ReposCollection, RBuild=RBuild, ProjectRepo=ProjectRepo)
     return _ENV
 
 
-def _tag(c, second=False):
-    return 'build_%d_release_1_0_success' % (100 + 2 * c + (1 if second else 0))
+def _tag(c, second=False, vfile=False):
+    return ('build_%d_master_success' if vfile else 'build_%d_release_1_0_success') % (100 + 2 * c + (1 if second else 0))
 
 
 def observe(case):
     e = _env()
     ck = case['ck']
-    lib_commits = {c: (sorted(case['cparents'][c - 1], reverse=(c % 2 == 0)), ('BUG-7 lib %d' % c) if case['cmatch'][c - 1] else 'lib other %d' % c, {})
+    # vfile: the component's version 1.<minor> is kept in its VERSION file and changes from commit to commit
+    vfile = bool(case.get('vfile'))
+    minor = (lambda c: c) if vfile else (lambda c: 0)
+    lib_commits = {c: (sorted(case['cparents'][c - 1], reverse=(c % 2 == 0)), ('BUG-7 lib %d' % c) if case['cmatch'][c - 1] else 'lib other %d' % c,
+                       {'VERSION': '1.%d\n' % minor(c)} if vfile else {})
                    for c in range(1, ck + 1)}
-    lib_tags = {_tag(c): c for c in range(1, ck + 1) if case['ctagged'][c - 1] >= 1}
-    lib_tags.update({_tag(c, True): c for c in range(1, ck + 1) if case['ctagged'][c - 1] == 2})
+    lib_tags = {_tag(c, False, vfile): c for c in range(1, ck + 1) if case['ctagged'][c - 1] >= 1}
+    lib_tags.update({_tag(c, True, vfile): c for c in range(1, ck + 1) if case['ctagged'][c - 1] == 2})
     lib = ghmock.Repo('lib', lib_commits, lib_tags, {'master': ck}, time_step=600)
     h = case['h']
     app_commits, app_tags = {}, {}
     for c in range(1, h['n'] + 1):
         ps = sorted(h['parents'][c - 1], reverse=(c % 2 == 1))
-        files = {'DEPENDS': json.dumps({'lib': '1.0.%d' % (100 + 2 * case['pin'][c - 1] + (1 if case['pin2'][c - 1] else 0))})}
+        files = {'DEPENDS': json.dumps({'lib': '1.%d.%d' % (minor(case['pin'][c - 1]), 100 + 2 * case['pin'][c - 1] + (1 if case['pin2'][c - 1] else 0))})}
         app_commits[c] = (ps, ('BUG-7 app %d' % c) if h['match'][c - 1] else 'app other %d' % c, files)
         if h['tagged'][c - 1]:
             app_tags[_tag(c)] = c
     app = ghmock.Repo('app', app_commits, app_tags, dict(h['head']), time_step=600)
     order = case.get('supply', 0)
-    repos = [('lib', e['Lib']('lib', lib, 'origin')), ('app', e['App']('app', app, 'origin'))]
+    repos = [('lib', e['LibV' if vfile else 'Lib']('lib', lib, 'origin')), ('app', e['App']('app', app, 'origin'))]
     if order:
         repos.reverse()
     coll = e['ReposCollection'](dict(repos))
@@ -102,7 +115,7 @@ def observe(case):
     for cb in sorted(real_incl):
         if real_incl[cb] != want[cb]:
             return ('component build %d (tag %s) is recorded as included at %s, the first parent builds that ship it are %s'
-                    % (cb, _tag(cb), sorted(real_incl[cb]), sorted(want[cb])))
+                    % (cb, _tag(cb, False, vfile), sorted(real_incl[cb]), sorted(want[cb])))
         for b, B in want[cb]:
             if B not in reported.get(b, set()):
                 return 'parent build %d of branch %s ships component build %d but is not reported' % (B, b, cb)
@@ -170,7 +183,8 @@ def run(ctx):
                         'report-related builds are taken from the component report itself); parent histories with merges and up to 2 (quick) / 3 branches whose heads '
                         'do not lie inside a lower-sorted branch (known finding F-C06 of C06 lives there); pins never decrease '
                         'along a path (the new pin contains the old one) and name existing component builds; all commit times within a few hours (inside the '
-                        'cut-off windows)']
+                        'cut-off windows)',
+                        'component versions: 1.0.<build> from tags build_<n>_release_1_0_success, or 1.<commit>.<build> from tags build_<n>_master_success plus a VERSION file that changes with every commit']
     ctx.tlc('ghist/GHistComp.tla', _cfg(2, 2, 2, 2, False) if ctx.quick else _cfg(2, 3, 2, 2, False), workers=16, timeout=3000)
     r = ctx.tlc('ghist/GHistComp.tla', _cfg(2, 2, 2, 2, True, invs=False) if ctx.quick else _cfg(2, 3, 2, 2, True, invs=False),
                 workers=16, timeout=7200, heap='16g')
@@ -194,6 +208,7 @@ def run(ctx):
     cases += sim
     for i, c in enumerate(cases):
         c['supply'] = i % 2
+        c['vfile'] = (i // 2) % 2         # how the component's builds get their major.minor: tag text / VERSION file
     res = pmap(_job, cases, chunk=100)
     for c, prob in zip(cases, res):
         if prob:
